@@ -1,5 +1,253 @@
 import Driver.Common
-/-! Driver for C04 (stub: not built yet). -/
-def main (_args : List String) : IO UInt32 := do
-  IO.eprintln "C04: driver not implemented"
-  return 2
+import CoapVerif.Model.Blockwise
+import CoapVerif.Spec.Blockwise
+/-!
+Driver for C04.  Input lines (one case = `cfg` … `end`):
+
+  cfg <szxA> <maxA> <expA ms> <szxB> <maxB> <expB ms>
+  reg <A|B> <tok> <code> <len> <seed> <etag|-> <other|->     the application of that side supplies this message for <tok>
+                                                              (A: the request it will send, B: how it answers requests)
+  do <tok> <timeout ms>            A calls Do with its registered request
+  write <A|B> <tok>                that side calls WriteMessage (one-way) with its registered message
+  net deliver|dup|drop|swap        relay decision on the oldest message in flight
+  net replay <k>                   deliver the k-th message of the relay's history again
+  inject <A|B> <code> <tok> <b1|-> <b2|-> <s1|-> <s2|-> <etag|-> <other|-> <seed> <off> <len>
+                                   the network hands a crafted message to that side (payload = bytes [off, off+len) of body(seed))
+  sleep <ms>     tick <A|B>     end
+
+Output: the events observed after the operation, ` ; ` separated (`none` if nothing happened):
+  wire <S> <msg> · arr <S> <msg> · dlv <S> <msg> · ret <tok> ok <msg> · ret <tok> err · wret <S> <tok> ok|err · err <S>
+  · sizes <rA> <sA> <rB> <sB>
+with <msg> = <code> <tok> <b1> <b2> <s1> <s2> <etag> <other> <len> <fnv>, blocks as szx/num/m.
+
+`model`: events of the model (`Model/Blockwise.lean`).  `judge`: `<input> | <observed>` evaluated by `Spec/Blockwise.lean`.
+-/
+namespace Driver.C04
+open CoapVerif CoapVerif.Model.Blockwise
+
+def bodyByte (seed i : Nat) : UInt8 := UInt8.ofNat ((i * 167 + (i / 256) * 59 + seed * 101 + 13) % 256)
+def genBody (seed off len : Nat) : List UInt8 := (List.range len).map (fun j => bodyByte seed (off + j))
+
+def sideStr : Side → String | .A => "A" | .B => "B"
+def parseSide : String → Option Side | "A" => some .A | "B" => some .B | _ => none
+
+def fmtBlkRaw (v : Option Nat) : String :=
+  match v with
+  | none => "-"
+  | some v =>
+    match Model.BlockOpt.decodeBlock v with
+    | .ok (s, n, m) => s!"{s}/{n}/{if m then 1 else 0}"
+    | .error _ => s!"!{v}"
+
+def fmtOptNat : Option Nat → String | none => "-" | some n => toString n
+def fmtEtag : Option (List UInt8) → String | none => "-" | some b => if b.isEmpty then "00x" else toHex b
+def fmtOther (o : List (Nat × List UInt8)) : String :=
+  if o.isEmpty then "-" else ",".intercalate (o.map (fun (i, v) => s!"{i}:{toHex v}"))
+
+def fmtMsg (m : Msg) : String :=
+  let d := Spec.Blockwise.digest m.body
+  s!"{m.code} {m.tok} {fmtBlkRaw m.block1} {fmtBlkRaw m.block2} {fmtOptNat m.size1} {fmtOptNat m.size2} {fmtEtag m.etag} {fmtOther m.other} {d.len} {hex64 d.fnv}"
+
+def fmtEvent : Event → String
+  | .wire s m => s!"wire {sideStr s} {fmtMsg m}"
+  | .arrive s m => s!"arr {sideStr s} {fmtMsg m}"
+  | .deliver s m => s!"dlv {sideStr s} {fmtMsg m}"
+  | .ret t (some m) => s!"ret {t} ok {fmtMsg m}"
+  | .ret t none => s!"ret {t} err"
+  | .wret s t ok => s!"wret {sideStr s} {t} {if ok then "ok" else "err"}"
+  | .errcb s => s!"err {sideStr s}"
+
+def joinEvents (l : List String) : String := if l.isEmpty then "none" else " ; ".intercalate l
+
+def parseOptNat (s : String) : Option (Option Nat) := if s = "-" then some none else s.toNat?.map some
+def parseEtag (s : String) : Option (Option (List UInt8)) := if s = "-" then some none else (parseHex? s).map some
+def parseOther (s : String) : Option (List (Nat × List UInt8)) :=
+  if s = "-" then some [] else
+  (s.splitOn ",").foldr (fun part acc => do
+    let acc ← acc
+    match part.splitOn ":" with
+    | [i, v] => do let i ← i.toNat?; let v ← parseHex? v; some ((i, v) :: acc)
+    | _ => none) (some [])
+
+/-- `szx/num/m` → raw option value (as the harness encodes a crafted block) -/
+def parseBlkRaw (s : String) : Option (Option Nat) :=
+  if s = "-" then some none else
+  match s.splitOn "/" with
+  | [a, b, c] => do
+    let a ← a.toNat?; let b ← b.toNat?; let c ← c.toNat?
+    some (some (b * 16 + (if c = 0 then 0 else 8) + a))
+  | _ => if s.startsWith "!" then (s.drop 1).toString.toNat?.map some else none
+
+structure Reg where
+  side : Side
+  msg : Msg
+
+structure MState where
+  w : World := { a := { szx := 0, maxSize := 0, expiration := 0 }, b := { szx := 0, maxSize := 0, expiration := 0 }, appB := fun _ => none }
+  regs : List Reg := []
+  keys : List Nat := [0]
+  active : Bool := false
+
+def lookupReg (regs : List Reg) (s : Side) (tok : Nat) : Option Msg :=
+  (regs.reverse.find? (fun r => r.side == s && r.msg.tok == tok)).map (·.msg)
+
+/-- B's application: answers a request with the message registered for its token -/
+def mkAppB (regs : List Reg) : App := fun m =>
+  if isRequest m.code then (lookupReg regs .B m.tok).map (fun r => { r with tok := m.tok }) else none
+
+def countKeys (c : Cache) (keys : List Nat) : Nat := (keys.filter (fun k => (c k).isSome)).length
+
+def sizesStr (s : MState) : String :=
+  s!"sizes {countKeys s.w.a.receiving s.keys} {countKeys s.w.a.sending s.keys} {countKeys s.w.b.receiving s.keys} {countKeys s.w.b.sending s.keys}"
+
+def ms (n : Nat) : Int := (n : Int) * 1000000
+
+def modelStep (s : MState) (line : String) : MState × String :=
+  let fin (w : World) (evs : List Event) : MState × String := ({ s with w := w }, joinEvents (evs.map fmtEvent))
+  match words line with
+  | ["cfg", sa, ma, ea, sb, mb, eb] =>
+    match sa.toNat?, ma.toNat?, ea.toNat?, sb.toNat?, mb.toNat?, eb.toNat? with
+    | some sa, some ma, some ea, some sb, some mb, some eb =>
+      ({ w := { a := { szx := sa, maxSize := ma, expiration := ms ea }, b := { szx := sb, maxSize := mb, expiration := ms eb }, appB := fun _ => none },
+         active := true }, "ok")
+    | _, _, _, _, _, _ => (s, "bad-op")
+  | ["reg", sd, tok, code, len, seed, etag, other] =>
+    match parseSide sd, tok.toNat?, code.toNat?, len.toNat?, seed.toNat?, parseEtag etag, parseOther other with
+    | some sd, some tok, some code, some len, some seed, some etag, some other =>
+      let m : Msg := { code := code, tok := tok, etag := etag, other := other, body := genBody seed 0 len }
+      let regs := s.regs ++ [⟨sd, m⟩]
+      ({ s with regs := regs, keys := if s.keys.contains tok then s.keys else tok :: s.keys, w := { s.w with appB := mkAppB regs } }, "ok")
+    | _, _, _, _, _, _, _ => (s, "bad-op")
+  | ["do", tok, tmo] =>
+    match tok.toNat?, tmo.toNat? with
+    | some tok, some tmo =>
+      match lookupReg s.regs .A tok with
+      | some r => let (w, evs) := s.w.startDo { r with deadline := some (s.w.now + ms tmo) }; fin w evs
+      | none => (s, "bad-op")
+    | _, _ => (s, "bad-op")
+  | ["write", sd, tok] =>
+    match parseSide sd, tok.toNat? with
+    | some sd, some tok =>
+      match lookupReg s.regs sd tok with
+      | some r => let (w, evs) := s.w.startWrite sd r; fin w evs
+      | none => (s, "bad-op")
+    | _, _ => (s, "bad-op")
+  | ["net", "deliver"] => let (w, evs) := s.w.fault .deliver; fin w evs
+  | ["net", "dup"] => let (w, evs) := s.w.fault .dup; fin w evs
+  | ["net", "drop"] => let (w, evs) := s.w.fault .drop; fin w evs
+  | ["net", "swap"] => let (w, evs) := s.w.fault .swap; fin w evs
+  | ["net", "replay", k] =>
+    match k.toNat? with
+    | some k => let (w, evs) := s.w.fault (.replay k); fin w evs
+    | none => (s, "bad-op")
+  | ["inject", sd, code, tok, b1, b2, s1, s2, etag, other, seed, off, len] =>
+    match parseSide sd, code.toNat?, tok.toNat?, parseBlkRaw b1, parseBlkRaw b2, parseOptNat s1, parseOptNat s2 with
+    | some sd, some code, some tok, some b1, some b2, some s1, some s2 =>
+      match parseEtag etag, parseOther other, seed.toNat?, off.toNat?, len.toNat? with
+      | some etag, some other, some seed, some off, some len =>
+        let m : Msg := { code := code, tok := tok, block1 := b1, block2 := b2, size1 := s1, size2 := s2, etag := etag,
+                         other := other, body := genBody seed off len }
+        let s := { s with keys := if s.keys.contains tok then s.keys else tok :: s.keys }
+        let (w, evs) := s.w.recv ⟨sd, m⟩
+        ({ s with w := w }, joinEvents (evs.map fmtEvent))
+      | _, _, _, _, _ => (s, "bad-op")
+    | _, _, _, _, _, _, _ => (s, "bad-op")
+  | ["sleep", d] =>
+    match d.toNat? with
+    | some d => let (w, evs) := s.w.sleep (ms d); fin w evs
+    | none => (s, "bad-op")
+  | ["tick", sd] =>
+    match parseSide sd with
+    | some sd => let s' := { s with w := s.w.tick sd }; (s', sizesStr s')
+    | none => (s, "bad-op")
+  | ["end"] =>
+    if !s.active then (s, "end") else
+    let (w, evs) := s.w.sleep (ms 3600000)
+    let s' := { s with w := (w.tick .A).tick .B }
+    ({ s' with active := false }, joinEvents (evs.map fmtEvent ++ [sizesStr s']))
+  | _ => (s, "bad-op")
+
+/-! ### judge -/
+open CoapVerif.Spec.Blockwise (Ev Seen Sent JState judgeEv Dig)
+
+def sideNat : Side → Nat | .A => 0 | .B => 1
+
+def parseBlk (s : String) : Option (Option (Nat × Nat × Bool)) :=
+  if s = "-" then some none else
+  match s.splitOn "/" with
+  | [a, b, c] => do let a ← a.toNat?; let b ← b.toNat?; let c ← c.toNat?; some (some (a, b, c != 0))
+  | _ => none
+
+def parseHex64 (s : String) : Option UInt64 :=
+  s.toList.foldl (fun acc c => do let a ← acc; let d ← hexDigit c; some (a * 16 + UInt64.ofNat d)) (some 0)
+
+def parseSeen : List String → Option Seen
+  | [code, tok, b1, b2, s1, s2, etag, other, len, fnv] => do
+    let code ← code.toNat?; let tok ← tok.toNat?
+    let b1 ← parseBlk b1; let b2 ← parseBlk b2
+    let s1 ← parseOptNat s1; let s2 ← parseOptNat s2
+    let etag ← parseEtag etag; let other ← parseOther other
+    let len ← len.toNat?; let fnv ← parseHex64 fnv
+    some { code := code, tok := tok, block1 := b1, block2 := b2, size1 := s1, size2 := s2, etag := etag, other := other, body := ⟨len, fnv⟩ }
+  | _ => none
+
+/-- events of one observed output line; unparsable parts give `none` -/
+def parseObserved (s : String) : Option (List Ev) :=
+  if s = "none" ∨ s = "ok" ∨ s = "end" then some [] else
+  (s.splitOn " ; ").foldr (fun part acc => do
+    let acc ← acc
+    match words part with
+    | "wire" :: sd :: rest => do let sd ← parseSide sd; let m ← parseSeen rest; some (Ev.wire (sideNat sd) m :: acc)
+    | "arr" :: sd :: rest => do let sd ← parseSide sd; let m ← parseSeen rest; some (Ev.arrive (sideNat sd) m :: acc)
+    | "dlv" :: sd :: rest => do let sd ← parseSide sd; let m ← parseSeen rest; some (Ev.deliver (sideNat sd) m :: acc)
+    | "ret" :: tok :: _ => do let tok ← tok.toNat?; some (Ev.returned tok :: acc)
+    | ["wret", _, _, _] => some acc
+    | ["err", _] => some acc
+    | "sizes" :: _ => some acc
+    | _ => none) (some [])
+
+def judgeLine (s : JState) (line : String) : JState × String :=
+  let (inp, obs) := match line.splitOn " | " with
+    | [i] => (i, "none")
+    | i :: o :: _ => (i, o)
+    | [] => ("", "none")
+  let pre : Option (List Ev) :=
+    match words inp with
+    | ["cfg", _, _, _, _, _, _] => some []
+    | ["reg", sd, tok, code, len, seed, etag, other] => do
+      let sd ← parseSide sd; let tok ← tok.toNat?; let code ← code.toNat?; let len ← len.toNat?; let seed ← seed.toNat?
+      let etag ← parseEtag etag; let other ← parseOther other
+      some [Ev.sent { side := sideNat sd, tok := tok, code := code, etag := etag, other := other, body := genBody seed 0 len }]
+    | ["do", tok, _] => tok.toNat?.map (fun t => [Ev.started t])
+    | ["end"] => some []
+    | _ => some []
+  let post : List Ev := if words inp == ["end"] then [Ev.finished] else []
+  let s0 : JState := match words inp with | "cfg" :: _ => {} | _ => s
+  match pre, parseObserved obs with
+  | some pre, some evs =>
+    let (s', verdict) := (pre ++ evs ++ post).foldl (fun (acc : JState × Option String) e =>
+      match acc.2 with
+      | some _ => acc
+      | none => judgeEv acc.1 e) (s0, none)
+    (s', match verdict with | none => "ok" | some v => "violates " ++ v)
+  | _, _ => (s0, "violates unparsable-observation")
+
+end Driver.C04
+
+def main (args : List String) : IO UInt32 := do
+  let stdin ← IO.getStdin
+  let stdout ← IO.getStdout
+  match args with
+  | ["model"] =>
+    let _ ← Driver.foldLines stdin ({} : Driver.C04.MState) fun s l => do
+      let (s', o) := Driver.C04.modelStep s l
+      stdout.putStrLn o
+      pure s'
+  | ["judge"] =>
+    let _ ← Driver.foldLines stdin ({} : CoapVerif.Spec.Blockwise.JState) fun s l => do
+      let (s', o) := Driver.C04.judgeLine s l
+      stdout.putStrLn o
+      pure s'
+  | _ => IO.eprintln "usage: drv_c04 model|judge"; return 2
+  stdout.flush
+  return 0
